@@ -4,6 +4,7 @@ use crate::ctx::{Ctx, Tier};
 use crate::report::Report;
 
 pub mod group_a;
+pub mod group_b;
 
 #[derive(Clone, Copy, Debug, PartialEq, Eq)]
 pub enum Group {
@@ -38,11 +39,12 @@ pub fn make(id: &str, tier: Tier, seed: u64) -> Option<Box<dyn Monitor>> {
         "C01" | "C04" | "C07" | "C08" | "C09" | "C10" | "C11" | "C12" | "C19" => {
             Some(Box::new(group_a::GroupA::new(id, tier, seed)))
         },
+        "C05" | "C06" | "C17" | "C18" => Some(Box::new(group_b::GroupB::new(id, tier, seed))),
         _ => None,
     }
 }
 
 /// Classifies a worker crash (C05) into a known-finding key from the in-flight operation.
-pub fn classify_crash(_what: &str, _reason: &str) -> Option<&'static str> {
-    None
+pub fn classify_crash(what: &str, reason: &str) -> Option<&'static str> {
+    group_b::classify_crash(what, reason)
 }
